@@ -41,6 +41,10 @@ PAIRS = [
     ("degC", "K", Fraction(1), Fraction(-27315, 100)),
     ("degF", "degC", Fraction(5, 9), Fraction(160, 9)),  # formed as (5/9)*459.67 - 273.15: see CANCEL
     ("C", "statC", Fraction(2997924580), Fraction(0)),  # EM branch (CGS <-> SI)
+    # results below the normal range of binary16/32 for small integers: rounding to the float type may
+    # underflow (int8 1 nm -> 0.0 m in float16) — outside the value oracle's range, inside the bit-exact
+    # correspondence with the model's IEEE instance
+    ("nm", "m", Fraction(1, 10 ** 9), Fraction(0)),
 ]
 # magnitude of the terms that cancel when the offset of a pair is formed (enters the tolerance)
 CANCEL = {("degF", "degC"): Fraction(530), ("degC", "K"): Fraction(27315, 100), ("degC", "mks"): Fraction(27315, 100), ("K", "degC"): Fraction(27315, 100)}
@@ -934,7 +938,7 @@ def _sweep(chk, tier):
         vals = values_for(d, rng, tier)
         if quick:
             vals = vals[:24]
-        for (a, b, fac, off) in PAIRS[:8]:
+        for (a, b, fac, off) in [p_ for p_ in PAIRS if p_[0] != "C"]:
             setup = arr_setup(vals, d, a, False)
             probe = Run(setup, f"f, o = x.units.get_conversion_factor(unyt.Unit('{b}'))\nr = x\n")
             if not probe.ok:
